@@ -40,3 +40,13 @@ def declare(check, na):
     check('C41', 'exploration', SQL_TECH + ' restricted to jobs of uncommitted updates (row-as-inserted comparison) + committed-only recounts',
           'every job of an uncommitted update is compared with its inserted row after every commit; counters, tallies and completion state are recounted over committed jobs only while late / never / out-of-order commits happen',
           SQL_NOTE)
+
+    check('C03', 'exploration', 'per-step transition oracle on the attempt row over enumerated admissible report sequences applied through the real procedures',
+          'every admissible sequence of up to 3 (quick) / 4 (thorough) reports over an 8-kind alphabet x 4-point time grid, plus random longer ones, is applied to a fresh attempt through the real CALLs and the billing heartbeat handler; after each report billed time, start, end and reason are checked against the stated monotonicity / bound rules',
+          SQL_NOTE + '; admissibility = worker reports only from an active instance (the repository\'s own @active_instances_only), creating / activation timeout only on a pending one')
+    check('C22', 'exploration', 'real copier on scratch trees vs a reference model of the documented destination rules, byte-for-byte tree comparison',
+          'all 324 configurations of the repository\'s own copy test table plus seeded multi-transfer layouts with part / buffer sizes patched to 1-64 bytes run through the real Copier over LocalAsyncFS; the destination tree must equal the modelled one byte for byte or the documented error must be raised',
+          'trusted: the reference model (cross-checked against COPY_TEST_SPECS at start-up), the sandbox file system; thread interleavings are varied, not enumerated; FileAndDirectoryError is not expressible between local paths')
+    check('C23', 'exploration', 'real AsyncFS ranged-read paths over protocol fakes (RFC 9110 range server for GCS, boto3 and azure-blob client fakes) and real local files',
+          'exhaustive (size <= 9/12, start, length) per backend, direct and routed, plus seeded larger objects, compared with data[start:start+length]; readexactly past EOF must signal UnexpectedEOFError',
+          'trusted: vf/sim/fsfakes.py implements the published GCS / S3 / azure-storage-blob range semantics (the real clouds are not contacted); UnexpectedEOFError is accepted for an empty range at start >= size')
